@@ -363,6 +363,19 @@ func roundTrip(tc rtcase) {
 		if c := canon(m); c != "" {
 			got = append(got, c)
 		}
+		// timestamps are not carried: the ingesting server stamps what it decodes with its time of receipt - every
+		// series of one request with the same, non-zero time (a series stamped 0 would expire at the next flush)
+		var stamps []gostatsd.Nanotime
+		m.Counters.Each(func(_, _ string, c gostatsd.Counter) { stamps = append(stamps, c.Timestamp) })
+		m.Gauges.Each(func(_, _ string, g gostatsd.Gauge) { stamps = append(stamps, g.Timestamp) })
+		m.Timers.Each(func(_, _ string, t gostatsd.Timer) { stamps = append(stamps, t.Timestamp) })
+		m.Sets.Each(func(_, _ string, s gostatsd.Set) { stamps = append(stamps, s.Timestamp) })
+		for _, ts := range stamps {
+			if ts <= 0 || ts != stamps[0] {
+				bad("receive-timestamp", fmt.Sprintf("the series decoded from one request carry the timestamps %v (want one non-zero time of receipt for all)", stamps))
+				break
+			}
+		}
 	}
 	if len(invalid) == 0 {
 		if len(got) != 1 || got[0] != want {
